@@ -44,7 +44,6 @@ struct alignas(128) Mailbox {
 };
 
 struct alignas(128) PerT {
-  std::atomic<uint64_t> quiet{0}; // free-running mode: calls made by this thread since nothing is pending (~0 = observed termination)
   std::atomic<uint64_t> idle{0}; // consecutive idle reports since this thread last saw work exist
   uint64_t calls = 0, processed = 0;
   uint64_t sawTermWithPending = 0;
@@ -231,8 +230,6 @@ int main(int argc, char** argv) {
         term->localTermination(didWork);
         gs::asmPause();
         me_.calls++;
-        if (me_.calls % 64 == 0)
-          progress();
         if (term->globalTermination()) {
           int64_t p     = pending.load(std::memory_order_seq_cst);
           bool nonEmpty = false;
@@ -257,35 +254,12 @@ int main(int argc, char** argv) {
         term->initializeThread();
         barrier.wait();
         if (!lockstep) {
-          // liveness in logical steps also without the lock-step barrier: once no unit is pending (a stable state), every
-          // thread counts its own calls; when EVERY thread has made more than 64 x the lock-step bound + 10000 calls since
-          // then and nobody has observed termination, it will never be announced (a descheduled thread makes no calls, so
-          // machine load cannot produce this verdict)
-          uint64_t myQuiet = 0;
-          me_.quiet.store(0, std::memory_order_relaxed);
+          // Free-running mode has no logical step bound: how many calls the other threads make while one thread is
+          // descheduled or delayed says nothing (a bound on per-thread call counts was tried and raised false alarms on the
+          // unchanged tree under machine load). Liveness is left to the logical hang monitor: idle polling does not count as
+          // progress, so a detector that never announces termination ends as "every thread spinning, no progress".
           while (!step(ph)) {
-            myQuiet = pending.load(std::memory_order_relaxed) == 0 ? myQuiet + 1 : 0;
-            me_.quiet.store(myQuiet, std::memory_order_relaxed);
-            if ((myQuiet & 4095) == 4095) {
-              uint64_t mn = ~0ull;
-              bool anyDone = false;
-              for (unsigned j = 0; j < numT; ++j) {
-                uint64_t q = pt[j].quiet.load(std::memory_order_relaxed);
-                if (q == ~0ull)
-                  anyDone = true;
-                else
-                  mn = std::min(mn, q);
-              }
-              if (!anyDone && mn > 64 * BOUND + 10000) {
-                H.violation("C04:" + comp + ":not-announced-within-bound",
-                            J().kv("threads", n).kv("mode", "free-running").kv("calls_by_every_thread_since_quiescence_at_least", mn)
-                                .kv("bound_calls", 64 * BOUND + 10000).kv("shape", shape).str());
-                H.line(J().kv("ev", "hang_exit").kv("case", k).str());
-                _exit(3);
-              }
-            }
           }
-          me_.quiet.store(~0ull, std::memory_order_relaxed);
         } else {
           bool done          = false;
           uint64_t lastEpoch = ~0ull;
